@@ -99,6 +99,37 @@ def cmap_format4(cmap):
     return struct.pack(">HHH", 4, 6 + len(body), 0) + body
 
 
+def cmap_format4_arrays(cmap, style=1):
+    """Format 4 with segments that go through the glyphIdArray (idRangeOffset != 0), holes inside segments (array entry
+    0 = not mapped) and, for style 1/2, a non-zero idDelta added to the array entries (style 2: every other segment)."""
+    items = sorted((c, g) for c, g in cmap.items() if c < 0xFFFF)
+    segs = []      # [start, end, {cp: gid}]
+    for c, g in items:
+        if segs and c - segs[-1][1] <= 3 and len(segs[-1][2]) < 40:
+            segs[-1][1] = c
+            segs[-1][2][c] = g
+        else:
+            segs.append([c, c, {c: g}])
+    n = len(segs) + 1
+    sr, es, rs = _search_hdr(n, 2)
+    end = b"".join(struct.pack(">H", s[1]) for s in segs) + b"\xff\xff"
+    start = b"".join(struct.pack(">H", s[0]) for s in segs) + b"\xff\xff"
+    deltas, ros, arr = [], [], []
+    for i, (st, en, m) in enumerate(segs):
+        d = 0 if style == 0 or (style == 2 and i % 2) else 100
+        while any((g - d) % 65536 == 0 for g in m.values()):
+            d += 1
+        deltas.append(d)
+        ros.append(2 * (n - i) + 2 * len(arr))
+        for c in range(st, en + 1):
+            arr.append((m[c] - d) % 65536 if c in m else 0)
+    deltas.append(1)
+    ros.append(0)
+    body = struct.pack(">HHHH", n * 2, sr, es, rs) + end + b"\0\0" + start + b"".join(struct.pack(">H", d) for d in deltas) + \
+        b"".join(struct.pack(">H", r) for r in ros) + b"".join(struct.pack(">H", a) for a in arr)
+    return struct.pack(">HHH", 4, 6 + len(body), 0) + body
+
+
 def cmap_format12(cmap):
     items = sorted(cmap.items())
     groups = []
@@ -135,7 +166,7 @@ def default_names(family="Verif", extra=None, platforms=((1, 0, 0), (3, 1, 1033)
 
 
 def build_font(glyphs, cmap, upem=1000, names=None, extra_tables=None, order=None, cmap12=False,
-               symbol=False, ascent=800, descent=-200, post_names=None):
+               symbol=False, ascent=800, descent=-200, post_names=None, cmap4_arrays=0):
     n = len(glyphs)
     # glyf / loca
     glyf = b""
@@ -165,9 +196,9 @@ def build_font(glyphs, cmap, upem=1000, names=None, extra_tables=None, order=Non
                       ascent, descent, 0, ascent, -descent) + struct.pack(">II", 1, 0)
     subtables = []
     if symbol:
-        subtables.append((3, 0, cmap_format4(cmap)))
+        subtables.append((3, 0, cmap_format4_arrays(cmap, cmap4_arrays - 1) if cmap4_arrays else cmap_format4(cmap)))
     else:
-        subtables.append((3, 1, cmap_format4(cmap)))
+        subtables.append((3, 1, cmap_format4_arrays(cmap, cmap4_arrays - 1) if cmap4_arrays else cmap_format4(cmap)))
     if cmap12:
         subtables.append((3, 10, cmap_format12(cmap)))
     subtables.sort(key=lambda s: s[:2])
